@@ -93,7 +93,7 @@ theorem offCpuGroup_sums (s : St) (h : Nat) (g : Group) (c : Nat) (stk : List SF
   by_cases h1 : g.count > 1
   · rw [if_pos h1, if_pos h1]
     simp only [List.filter_cons, List.filter_nil, List.map_cons, List.map_nil, List.sum_cons,
-      List.sum_nil, i32OrZero, hsat, if_true, Nat.add_zero]
+      List.sum_nil, i32OrZero, hsat, if_true, Nat.add_zero, USample.synth_mk, ItemKind.offCpu_bne]
     refine ⟨?_, trivial, trivial⟩
     have : g.count = (g.count - 1) + 1 := by omega
     generalize s.cfg.offWeight = w
@@ -102,7 +102,7 @@ theorem offCpuGroup_sums (s : St) (h : Nat) (g : Group) (c : Nat) (stk : List SF
   · have h2 : g.count = 1 := by omega
     rw [if_neg h1, if_neg h1]
     simp only [List.filter_cons, List.filter_nil, List.map_cons, List.map_nil, List.sum_cons,
-      List.sum_nil, if_true, h2, Nat.one_mul, Nat.add_zero, and_self]
+      List.sum_nil, if_true, h2, Nat.one_mul, Nat.add_zero, and_self, USample.synth_mk, ItemKind.offCpu_bne]
 
 
 theorem offCpuGroup_cpu (s : St) (h : Nat) (g : Group) (c : Nat) (stk : List SFrame) (lbl : String)
